@@ -220,7 +220,7 @@ func executeFinish(c *vkit.Case, fc finCase) {
 // parallelism x n x ctx-kind grid, twice; (b) the k-th call to finish does, for every k (n <= 6) or
 // a few k (n = 50, 1000); (c) an outside goroutine cancels at a swept offset around the end of the
 // last call.
-func finishCases(r *vkit.Report, rnd *vkit.Rand) []finCase {
+func finishCases(r *vkit.Report, rnd *vkit.Rand, small bool) []finCase {
 	var cases []finCase
 	ns := []int{1, 2, 3, 4, 5, 6, 50, 1000}
 	pars := func(n, alt int) []int { return []int{2, 3, 4, 8, n, n + 3, -(alt % 2)} }
@@ -255,6 +255,9 @@ func finishCases(r *vkit.Report, rnd *vkit.Rand) []finCase {
 		}
 	}
 	sweeps := r.Scale(2400, 40000)
+	if small {
+		sweeps = r.Scale(600, 6000)
+	}
 	for t := 0; t < sweeps; t++ {
 		n := []int{2, 3, 4, 5, 6, 50}[t%6]
 		p := []int{2, 3, 4, 8, n, 0}[(t/6)%6]
